@@ -264,8 +264,13 @@ func importName(f *ast.File, path string) string {
 	return ""
 }
 
-var timeFuncs = map[string]string{"Now": "Now", "Since": "Since", "Until": "Until", "Sleep": "Sleep", "After": "After"}
-var timeUnseamed = map[string]bool{"AfterFunc": true, "NewTimer": true, "NewTicker": true, "Tick": true}
+var timeFuncs = map[string]string{"Now": "Now", "Since": "Since", "Until": "Until", "Sleep": "Sleep", "After": "After",
+	// timers: constructors and the type names (so that fields, parameters and
+	// variables of type *time.Timer keep compiling)
+	"NewTimer": "NewTimer", "AfterFunc": "AfterFunc", "NewTicker": "NewTicker", "Tick": "Tick", "Timer": "Timer", "Ticker": "Ticker"}
+var timeUnseamed = map[string]bool{}
+var ctxFuncs = map[string]string{"WithCancel": "CtxWithCancel", "WithTimeout": "CtxWithTimeout", "WithDeadline": "CtxWithDeadline"}
+var ctxUnseamed = map[string]bool{"WithCancelCause": true, "WithTimeoutCause": true, "WithDeadlineCause": true, "AfterFunc": true}
 var randFuncs = map[string]string{
 	"Int": "RandInt", "Intn": "RandIntn", "Int31": "RandInt31", "Int31n": "RandInt31n", "Int63": "RandInt63",
 	"Int63n": "RandInt63n", "Uint32": "RandUint32", "Uint64": "RandUint64", "Float64": "RandFloat64",
@@ -315,6 +320,8 @@ func (in *instrumenter) rewriteFile(p *pkgInfo, f *ast.File, name string, write 
 	timeStill, randStill := false, false
 	runtimeName := importName(f, "runtime")
 	usesRuntime, runtimeStill := false, false
+	ctxName := importName(f, "context")
+	usesCtx, ctxStill := false, false
 
 	// sync import redirect
 	for _, is := range f.Imports {
@@ -569,6 +576,17 @@ func (in *instrumenter) rewriteFile(p *pkgInfo, f *ast.File, name string, write 
 								in.noteUnseamed(relFile, x.Pos(), "time."+x.Sel.Name+" (timers are not virtualised)")
 							}
 						}
+					} else if isPkgIdent(id, ctxName) {
+						if to, ok := ctxFuncs[x.Sel.Name]; ok {
+							add(off(x.Pos()), int(x.End()-x.Pos()), rt+"."+to)
+							in.res.Seams["ctx_"+x.Sel.Name]++
+							usesCtx = true
+						} else {
+							ctxStill = true
+							if ctxUnseamed[x.Sel.Name] {
+								in.noteUnseamed(relFile, x.Pos(), "context."+x.Sel.Name+" (cancellation from uninstrumented code)")
+							}
+						}
 					} else if isPkgIdent(id, randName) {
 						if to, ok := randFuncs[x.Sel.Name]; ok {
 							add(off(x.Pos()), int(x.End()-x.Pos()), rt+"."+to)
@@ -598,6 +616,9 @@ func (in *instrumenter) rewriteFile(p *pkgInfo, f *ast.File, name string, write 
 	}
 	if usesRuntime && !runtimeStill {
 		tail += fmt.Sprintf("\nvar _ = %s.GC\n", runtimeName)
+	}
+	if usesCtx && !ctxStill {
+		tail += fmt.Sprintf("\nvar _ = %s.Background\n", ctxName)
 	}
 	if usesRand && !randStill {
 		tail += fmt.Sprintf("\nvar _ = %s.Int\n", randName)
